@@ -3,13 +3,21 @@ Model of `ear.core.select_items.validate` and of the steps of
 `ear.core.select_items.select_items.select_rendering_items` that can raise (C14).
 
 Every function returns `Except Err α`:
-* `Err.adm k`      — the Python code raises `AdmError` (or a subclass); `k` names the message family;
+* `Err.adm k m`    — the Python code raises `AdmError` (or a subclass); `k` is the raise statement (one `AdmKind` per
+  `raise`, `AdmKind.site` = function and ordinal), `m : Msg` the structured diagnostic: every value the message
+  formatting reads from the document (`.id`, `.type.name`, `len(...)`), in evaluation order;
 * `Err.internal k` — a Python operation raises something else: attribute access on `None`
   (`attrNone`), `[x] = list` with `len ≠ 1` (`unpack`), `list[0]` of an empty list (`index`),
-  `assert` (`assert`), arithmetic on `None` (`typeError`); `notImplemented`
-  (`raise NotImplementedError`) is no longer produced: the code raises `AdmError` for unsupported pack
-  types since commit 76cae51;
+  `assert` (`assert`), arithmetic on `None` (`typeError`), `max()/min()` of an empty sequence or `list.index` of a
+  missing element (`valueError`); `notImplemented` (`raise NotImplementedError`) is no longer produced: the code
+  raises `AdmError` for unsupported pack types since commit 76cae51.
+Reads that can fail WHILE A MESSAGE IS BUILT are modelled where they happen: `input_channel.id`
+(`validateInputRefsChannel`), `audioPackFormat.encodePackFormats` / `acf.id` / `apf.id` in the reasons of
+`possible_reference_errors`, `.index(...)` in `loop_exception` (`loopMsg`), the two `max(...)` of `diamond_exception`
+(`diamondMsg`), `path[0]` / `path[-1]` in `get_path_param` (`pathParam`).
 
+Parameter values (block rtime/duration, normalization, screenRef, nfcRefDist, absoluteDistance) are value tokens:
+Python compares them with `!=`, the model compares tokens.
 
 The functions are transliterations in the order the Python runs them.  The pack allocator is C07's model
 `Earverif.PackAlloc` (`pack_allocation.allocate_packs` and the decision of `select_pack_mapping`), called
@@ -22,21 +30,138 @@ import Earverif.Model.PackAlloc
 namespace Earverif.Validate
 open Earverif.AdmV
 
+/-- the parameter names `utils.get_single_param` / `get_path_param` are called with -/
+inductive PName | rtime | duration | normalization | nfcRefDist | screenRef | absoluteDistance
+  deriving DecidableEq, Repr
+
+/-- one constructor per `raise AdmError(...)` statement reachable from `select_rendering_items` (`AdmKind.site` names
+the function and the ordinal of the statement in it); the two parameter helpers of `utils.py` carry the parameter
+name, `_PackAllocator.raise_error` has one statement for both `error_type`s -/
 inductive AdmKind
-  | objloop | leafparam | packchtype | subpacktype | packloop | diamond | objfreq | cartesian
-  | hoablocks | hoafreq | hoaeq | hoaorder | hoadegree | hoadup | hoaempty | paramshare | parampath
+  | objloop | leafstart | leafduration | leafgain | leafmute | leafoffset | leafavs
+  | packchtype | subpacktype | packloop | diamond | objfreq | cartesian
+  | hoablocks | hoafreq | hoaeq | hoaorder | hoadegree | hoadup | hoaempty
+  | paramshare (n : PName) | parampath (n : PName)
   | nmxinput | nmxoutput | nmxencode | v2ref | tracknone | trackboth
-  | coeffnoinput | mxchblocks | mxchparam | mxnoio | mxinmatrix | mxoutmatrix | mxencnotdec | mxdecone
-  | mxencnonmatrix | mxencnonenc | mxsubpack | mxinputch | mxoutmissing | mxoutdup | mxoutnotin | mxoutuncovered
+  | coeffnoinput | blocktime
+  | mxchblocks | mxchtime | mxchvar | mxchdelay
+  | mxnoio | mxinmatrix | mxoutmatrix | mxencnotdec | mxdecone | mxencnonmatrix | mxencnoio | mxencnonenc | mxsubpack
+  | mxinputch | mxoutmissing | mxoutdup | mxoutnotin | mxoutuncovered
   | streamboth | streamnone | tfnostream | compnotgroup | compmulti
   | noindex | nopack | streamnochannel | conflicting | ambiguous | unsupportedtype
   | avsnotin | avsdup | avsboth | avsmulti
   deriving DecidableEq, Repr
 
-inductive IntKind | attrNone | unpack | index | assert | typeError | notImplemented
+/-- the raise site of a kind: (qualified function name, 1-based ordinal of the `raise` statement among the `raise`
+statements of that function in source order).  The harness recomputes this table from the Python sources with `ast`
+on every run and compares. -/
+def AdmKind.site : AdmKind → String × Nat
+  | .objloop => ("_validate_loops.dfs", 1)
+  | .leafstart => ("_validate_object_parameters_in_leaves", 1)
+  | .leafduration => ("_validate_object_parameters_in_leaves", 2)
+  | .leafgain => ("_validate_object_parameters_in_leaves", 3)
+  | .leafmute => ("_validate_object_parameters_in_leaves", 4)
+  | .leafoffset => ("_validate_object_parameters_in_leaves", 5)
+  | .leafavs => ("_validate_object_parameters_in_leaves", 6)
+  | .packchtype => ("_validate_pack_channel_types", 1)
+  | .subpacktype => ("_validate_pack_subpack_types", 1)
+  | .packloop => ("_validate_pack_channel_multitree.loop_exception", 1)
+  | .diamond => ("_validate_pack_channel_multitree.diamond_exception", 1)
+  | .objfreq => ("_validate_objects_channels", 1)
+  | .cartesian => ("_validate_objects_channels", 2)
+  | .hoablocks => ("_validate_hoa_channels", 1)
+  | .hoafreq => ("_validate_hoa_channels", 2)
+  | .hoaeq => ("_validate_hoa_order_degree", 1)
+  | .hoaorder => ("_validate_hoa_order_degree", 2)
+  | .hoadegree => ("_validate_hoa_order_degree", 3)
+  | .hoadup => ("_validate_hoa_order_degree", 4)
+  | .hoaempty => ("_validate_hoa_parameters_consistent", 1)
+  | .paramshare _ => ("get_single_param", 1)
+  | .parampath _ => ("get_path_param", 1)
+  | .nmxinput => ("_validate_non_matrix_pack", 1)
+  | .nmxoutput => ("_validate_non_matrix_pack", 2)
+  | .nmxencode => ("_validate_non_matrix_pack", 3)
+  | .v2ref => ("_validate_track_channel_ref_only_in_v2", 1)
+  | .tracknone => ("_validate_track_uid_track_or_channel_ref", 1)
+  | .trackboth => ("_validate_track_uid_track_or_channel_ref", 2)
+  | .coeffnoinput => ("MatrixCoefficient.validate", 1)
+  | .blocktime => ("AudioBlockFormat.validate", 1)
+  | .mxchblocks => ("_validate_matrix_channel", 1)
+  | .mxchtime => ("_validate_matrix_channel", 2)
+  | .mxchvar => ("_validate_matrix_channel", 3)
+  | .mxchdelay => ("_validate_matrix_channel", 4)
+  | .mxnoio => ("_validate_matrix_apf_references", 1)
+  | .mxinmatrix => ("_validate_matrix_apf_references", 2)
+  | .mxoutmatrix => ("_validate_matrix_apf_references", 3)
+  | .mxencnotdec => ("_validate_matrix_apf_references", 4)
+  | .mxdecone => ("_validate_matrix_apf_references", 5)
+  | .mxencnonmatrix => ("_validate_matrix_apf_references", 6)
+  | .mxencnoio => ("_validate_matrix_apf_references", 7)
+  | .mxencnonenc => ("_validate_matrix_apf_references", 8)
+  | .mxsubpack => ("_validate_matrix_apf_references", 9)
+  | .mxinputch => ("_validate_matrix_inputChannelFormat_references", 1)
+  | .mxoutmissing => ("_validate_matrix_outputChannelFormat_references", 1)
+  | .mxoutdup => ("_validate_matrix_outputChannelFormat_references", 2)
+  | .mxoutnotin => ("_validate_matrix_outputChannelFormat_references", 3)
+  | .mxoutuncovered => ("_validate_matrix_outputChannelFormat_references", 4)
+  | .streamboth => ("AudioStreamFormat.validate", 1)
+  | .streamnone => ("AudioStreamFormat.validate", 2)
+  | .tfnostream => ("AudioTrackFormat.validate", 1)
+  | .compnotgroup => ("_select_complementary_objects", 1)
+  | .compmulti => ("_select_complementary_objects", 2)
+  | .noindex => ("validate_selected_audioTrackUID", 1)
+  | .nopack => ("validate_selected_audioTrackUID", 2)
+  | .streamnochannel => ("validate_selected_audioTrackUID", 3)
+  | .conflicting => ("_PackAllocator.raise_error", 1)
+  | .ambiguous => ("_PackAllocator.raise_error", 1)
+  | .unsupportedtype => ("_get_rendering_items", 1)
+  | .avsnotin => ("_validate_avs_references_contained", 1)
+  | .avsdup => ("_validate_avs_references_conflict", 1)
+  | .avsboth => ("_validate_avs_references_conflict", 2)
+  | .avsmulti => ("_validate_avs_references_conflict", 3)
+
+/-- every kind, for the driver's site table -/
+def AdmKind.all : List AdmKind :=
+  [.objloop, .leafstart, .leafduration, .leafgain, .leafmute, .leafoffset, .leafavs, .packchtype, .subpacktype,
+   .packloop, .diamond, .objfreq, .cartesian, .hoablocks, .hoafreq, .hoaeq, .hoaorder, .hoadegree, .hoadup, .hoaempty,
+   .paramshare .rtime, .parampath .normalization, .nmxinput, .nmxoutput, .nmxencode, .v2ref, .tracknone, .trackboth,
+   .coeffnoinput, .blocktime, .mxchblocks, .mxchtime, .mxchvar, .mxchdelay, .mxnoio, .mxinmatrix, .mxoutmatrix,
+   .mxencnotdec, .mxdecone, .mxencnonmatrix, .mxencnoio, .mxencnonenc, .mxsubpack, .mxinputch, .mxoutmissing,
+   .mxoutdup, .mxoutnotin, .mxoutuncovered, .streamboth, .streamnone, .tfnostream, .compnotgroup, .compmulti,
+   .noindex, .nopack, .streamnochannel, .conflicting, .ambiguous, .unsupportedtype, .avsnotin, .avsdup, .avsboth,
+   .avsmulti]
+
+/-- `valueError`: `max()` of an empty sequence / `list.index` of a missing element / `min()` of an empty sequence -/
+inductive IntKind | attrNone | unpack | index | assert | typeError | notImplemented | valueError
   deriving DecidableEq, Repr
 
-inductive Err | adm (k : AdmKind) | internal (k : IntKind)
+/-- one reason of `possible_reference_errors` (family only) -/
+inductive Diag | manyPacks | tracksNoPacks | packsNoTracks | trackPackNotInObject | packLacksChannel
+  deriving DecidableEq, Repr
+
+/-- kinds of top-level ADM elements (position in the ADM's element lists) -/
+inductive EK | ap | ac | ao | apf | acf | asf | atf | atu
+  deriving DecidableEq, Repr
+
+/-- one value read from the document while a diagnostic message is formatted.  Every `.id`, `.type.name`, `len()`
+that a `raise AdmError(...)` site evaluates appears as one `Acc` (in evaluation order); reads that can fail in Python
+(attribute of `None`, `max()`/`.index()`/`[0]` of something possibly empty) are separate `R`-valued steps in the
+function that raises. -/
+inductive Acc
+  | id (k : EK) (i : Nat)        -- `<element>.id` of a (non-None) element
+  | tname (k : EK) (i : Nat)     -- `<element>.type.name`
+  | block (c b : Nat)            -- `.id` of block `b` of channel `c`
+  | avs (tok : Nat)              -- `.id` of an alternativeValueSet
+  | num (n : Nat)                -- a `len(...)`
+  | pname (n : PName)            -- parameter / attribute name
+  | reason (r : Diag)            -- start of one reason of `AdmFormatRefError.reasons`
+  | chna                         -- the context "CHNA" of `raise_error`
+  deriving DecidableEq, Repr
+
+/-- structured diagnostic: the values the message is built from -/
+abbrev Msg := List Acc
+
+inductive Err | adm (k : AdmKind) (m : Msg) | internal (k : IntKind)
   deriving DecidableEq, Repr
 
 abbrev R := Except Err
@@ -46,6 +171,13 @@ def forE {α : Type} : List α → (α → R Unit) → R Unit
   | [], _ => .ok ()
   | x :: xs, f => match f x with
     | .ok _ => forE xs f
+    | .error e => .error e
+
+/-- `for x in l: f(x)` where the message of an error names `x` (position `i` in the ADM's list) -/
+def forEI {α : Type} : List α → Nat → (Nat → α → R Unit) → R Unit
+  | [], _, _ => .ok ()
+  | x :: xs, i, f => match f i x with
+    | .ok _ => forEI xs (i + 1) f
     | .error e => .error e
 
 /-- `[f(x) for x in l]` -/
@@ -76,6 +208,10 @@ def first {α : Type} : List α → R α
   | x :: _ => .ok x
   | [] => .error (.internal .index)
 
+/-- `min(...)` / `max(...)` of a sequence: `ValueError` when it is empty (only that matters here) -/
+def minNonempty {α : Type} (l : List α) : R Unit :=
+  if l.isEmpty then .error (.internal .valueError) else .ok ()
+
 /-- `utils._paths_from` with fuel. -/
 def pathsFrom (children : Nat → List Nat) : Nat → Nat → List (List Nat)
   | 0, start => [[start]]
@@ -101,45 +237,64 @@ def packChannels (d : Doc) (p : Nat) : List Nat := (packPathsChannels d p).map (
 /-- `utils.pack_format_packs` (same packs as the last elements of the paths, same order). -/
 def packPacks (d : Doc) (p : Nat) : List Nat := (packPaths d p).map (fun path => path.getLastD p)
 
-/-! ### `ADM.validate()` — element validators (`MatrixCoefficient.validate` reached through
-`AudioChannelFormat.validate`, `AudioStreamFormat.validate`, `AudioTrackFormat.validate`, in the order of
-`ADM.elements`); attrs type validators are outside the model. -/
+/-! ### `ADM.validate()` — element validators in the order of `ADM.elements` (channels, streams, track formats):
+`AudioChannelFormat.validate` → `AudioBlockFormat.validate` ("rtime and duration must be used together") →
+`MatrixCoefficient.validate`; `AudioStreamFormat.validate`; `AudioTrackFormat.validate`.  attrs type validators
+(`attr.validate(self)`) are outside the model. -/
+
+/-- `AudioBlockFormat.validate` / `AudioBlockFormatMatrix.validate` for one block (both messages are constant strings) -/
+def validateBlock (b : Block) : R Unit :=
+  if b.rtime.isSome != b.duration.isSome then .error (.adm .blocktime [])
+  else forE b.coeffs (fun co => if co.input.isNone then .error (.adm .coeffnoinput []) else .ok ())
 
 def validateElements (d : Doc) : R Unit := do
-  forE d.channels (fun c => forE c.blocks (fun b => forE b.coeffs (fun co =>
-    if co.input.isNone then .error (.adm .coeffnoinput) else .ok ())))
-  forE d.streams (fun s =>
-    if s.pack.isSome && s.channel.isSome then .error (.adm .streamboth)
-    else if s.pack.isNone && s.channel.isNone then .error (.adm .streamnone)
+  forE d.channels (fun c => forE c.blocks validateBlock)
+  forEI d.streams 0 (fun i s =>
+    if s.pack.isSome && s.channel.isSome then .error (.adm .streamboth [.id .asf i])
+    else if s.pack.isNone && s.channel.isNone then .error (.adm .streamnone [.id .asf i])
     else .ok ())
-  forE d.trackFormats (fun t => if t.stream.isNone then .error (.adm .tfnostream) else .ok ())
+  forEI d.trackFormats 0 (fun i t => if t.stream.isNone then .error (.adm .tfnostream [.id .atf i]) else .ok ())
 
 /-! ### `_validate_loops` / `_validate_object_loops` -/
 
-/-- `dfs(node, path)`; the `visited` set only prunes re-exploration and does not change the outcome. -/
+/-- `dfs(node, path)`; the `visited` set only prunes re-exploration and does not change the outcome.
+Message: `' -> '.join(o.id for o in path + (node,))`. -/
 def objLoopDfs (d : Doc) : Nat → Nat → List Nat → R Unit
   | 0, _, _ => .ok ()
   | f + 1, node, path =>
-    if path.contains node then .error (.adm .objloop)
+    if path.contains node then .error (.adm .objloop ((path ++ [node]).map (Acc.id .ao)))
     else forE (d.obj node).objects (fun c => objLoopDfs d f c (path ++ [node]))
 
 def validateObjectLoops (d : Doc) : R Unit :=
   forE (List.range d.objects.length) (fun o => objLoopDfs d (d.objects.length + 1) o [])
 
-/-- `_validate_object_parameters_in_leaves` -/
+/-- `_validate_object_parameters_in_leaves` (six `raise` statements, each formatting `obj.id`) -/
 def validateObjectParams (d : Doc) : R Unit :=
-  forE d.objects (fun o =>
-    if !o.objects.isEmpty && o.params then .error (.adm .leafparam) else .ok ())
+  forEI d.objects 0 (fun i o =>
+    if o.objects.isEmpty then .ok ()
+    else if o.pstart then .error (.adm .leafstart [.id .ao i])
+    else if o.pdur then .error (.adm .leafduration [.id .ao i])
+    else if o.pgain then .error (.adm .leafgain [.id .ao i])
+    else if o.pmute then .error (.adm .leafmute [.id .ao i])
+    else if o.poffset then .error (.adm .leafoffset [.id .ao i])
+    else if !o.avs.isEmpty then .error (.adm .leafavs [.id .ao i])
+    else .ok ())
 
-/-- `_validate_pack_channel_types` -/
+/-- `_validate_pack_channel_types` (`apf.id`, `apf.type.name`, `acf.id`, `acf.type.name`) -/
 def validatePackChannelTypes (d : Doc) : R Unit :=
-  forE d.packs (fun p =>
-    forE p.channels (fun c => if (d.chan c).type != p.type then .error (.adm .packchtype) else .ok ()))
+  forEI d.packs 0 (fun pi p =>
+    forE p.channels (fun c =>
+      if (d.chan c).type != p.type then
+        .error (.adm .packchtype [.id .apf pi, .tname .apf pi, .id .acf c, .tname .acf c])
+      else .ok ()))
 
 /-- `_validate_pack_subpack_types` -/
 def validatePackSubpackTypes (d : Doc) : R Unit :=
-  forE d.packs (fun p =>
-    forE p.packs (fun s => if (d.pack s).type != p.type then .error (.adm .subpacktype) else .ok ()))
+  forEI d.packs 0 (fun pi p =>
+    forE p.packs (fun s =>
+      if (d.pack s).type != p.type then
+        .error (.adm .subpacktype [.id .apf pi, .tname .apf pi, .id .apf s, .tname .apf s])
+      else .ok ()))
 
 /-- node of the pack/channel multitree -/
 inductive Node | pack (i : Nat) | chan (i : Nat)
@@ -156,13 +311,58 @@ def foldE {α σ : Type} : List α → σ → (σ → α → R σ) → R σ
     | .ok s' => foldE xs s' f
     | .error e => .error e
 
-/-- `_validate_pack_channel_multitree.dfs(node, paths, path)`; `seen` = keys of `paths`. -/
-def mtDfs (d : Doc) : Nat → Node → List Node → List Node → R (List Node)
-  | 0, _, seen, _ => .ok seen
-  | f + 1, node, seen, path =>
-    if path.contains node then .error (.adm .packloop)
-    else if seen.contains node then .error (.adm .diamond)
-    else foldE (mtChildren d node) (node :: seen) (fun s c => mtDfs d f c s (path ++ [node]))
+/-- `n.id` of a multitree node (both element classes have `.id`); `type_names[type(n)]` is total on `Node` -/
+def Node.acc : Node → Acc
+  | .pack i => .id .apf i
+  | .chan i => .id .acf i
+
+/-- the `paths` dict of `_validate_pack_channel_multitree.dfs`: `id(node)` ↦ path, newest entry first -/
+abbrev MtPaths := List (Node × List Node)
+
+def mtLookup (paths : MtPaths) (n : Node) : Option (List Node) :=
+  (paths.find? (fun e => e.1 == n)).map (·.2)
+
+/-- `max(i for i, n in enumerate(l) if p(n))` together with `l[i]`; `none` = `max()` of an empty sequence -/
+def lastWith (p : Node → Bool) : List Node → Nat → Option (Nat × Node)
+  | [], _ => none
+  | x :: xs, i => match lastWith p xs (i + 1) with
+    | some r => some r
+    | none => if p x then some (i, x) else none
+
+/-- `loop_exception(path)` up to the `raise`: `node_idx = [id(n) for n in path[:-1]].index(id(node))`
+(`ValueError` if absent), `loop_path = path[node_idx:]`, ids of `loop_path`.  `pre` = `path[:-1]`. -/
+def loopMsg (pre : List Node) (node : Node) : R Msg :=
+  match pre.findIdx? (fun n => n == node) with
+  | none => .error (.internal .valueError)
+  | some i => .ok (((pre ++ [node]).drop i).map Node.acc)
+
+/-- `diamond_exception(node, path_a, path_b)` up to the `raise`: two `max(...)` over generators (`ValueError` when
+empty), slicing, two dict lookups `type_names[type(...)]` (total on `Node`), the ids of `node`, `common_parent` and of
+both sliced paths (the joins are evaluated for both message variants; the short variant prints only the first two) -/
+def diamondMsg (node : Node) (pa pb : List Node) : R Msg :=
+  match lastWith (fun n => pb.dropLast.contains n) pa.dropLast 0 with
+  | none => .error (.internal .valueError)
+  | some (ia, cp) =>
+    match lastWith (fun n => n == cp) pb.dropLast 0 with
+    | none => .error (.internal .valueError)
+    | some (ib, _) =>
+      if (pa.drop ia).length == 2 && (pb.drop ib).length == 2 then .ok [node.acc, cp.acc]
+      else .ok ([node.acc, cp.acc] ++ (pa.drop ia).map Node.acc ++ (pb.drop ib).map Node.acc)
+
+/-- `raise AdmError(<message>)` where building the message may itself raise -/
+def raiseMsg {α : Type} (k : AdmKind) (m : R Msg) : R α :=
+  match m with
+  | .ok msg => .error (.adm k msg)
+  | .error e => .error e
+
+/-- `_validate_pack_channel_multitree.dfs(node, paths, path)` (`path` = the argument, before `path + (node,)`) -/
+def mtDfs (d : Doc) : Nat → Node → MtPaths → List Node → R MtPaths
+  | 0, _, paths, _ => .ok paths
+  | f + 1, node, paths, path =>
+    if path.contains node then raiseMsg .packloop (loopMsg path node)
+    else match mtLookup paths node with
+      | some pa => raiseMsg .diamond (diamondMsg node pa (path ++ [node]))
+      | none => foldE (mtChildren d node) ((node, path ++ [node]) :: paths) (fun s c => mtDfs d f c s (path ++ [node]))
 
 def validateMultitree (d : Doc) : R Unit :=
   forE (List.range d.packs.length) (fun p =>
@@ -172,49 +372,55 @@ def validateMultitree (d : Doc) : R Unit :=
 
 /-- `_validate_objects_channels` -/
 def validateObjectsChannels (d : Doc) : R Unit :=
-  forE d.channels (fun c =>
+  forEI d.channels 0 (fun ci c =>
     if c.type == .objects then
-      if c.freq then .error (.adm .objfreq)
-      else forE c.blocks (fun b => if b.cartMismatch then .error (.adm .cartesian) else .ok ())
+      if c.freq then .error (.adm .objfreq [.id .acf ci])
+      else forEI c.blocks 0 (fun bi b => if b.cartMismatch then .error (.adm .cartesian [.block ci bi]) else .ok ())
     else .ok ())
 
 /-- `_validate_hoa_channels` -/
 def validateHoaChannels (d : Doc) : R Unit :=
-  forE d.channels (fun c =>
+  forEI d.channels 0 (fun ci c =>
     if c.type == .hoa then
-      if c.blocks.length != 1 then .error (.adm .hoablocks)
-      else if c.freq then .error (.adm .hoafreq)
+      if c.blocks.length != 1 then .error (.adm .hoablocks [.id .acf ci, .num c.blocks.length])
+      else if c.freq then .error (.adm .hoafreq [.id .acf ci])
       else .ok ()
     else .ok ())
 
 def hoaPacks (d : Doc) : List Nat :=
   (List.range d.packs.length).filter (fun p => (d.pack p).type == .hoa)
 
-/-- body of the channel loop in `_validate_hoa_order_degree`; state = set of (order, degree) seen -/
-def hoaOrderDegreeStep (d : Doc) (seen : List (Int × Int)) (c : Nat) : R (List (Int × Int)) :=
+/-- body of the channel loop in `_validate_hoa_order_degree` for pack `p`; state = set of (order, degree) seen -/
+def hoaOrderDegreeStep (d : Doc) (p : Nat) (seen : List (Int × Int)) (c : Nat) : R (List (Int × Int)) :=
   match unpack1 (d.chan c).blocks with
   | .error e => .error e
   | .ok b =>
-    if b.equation then .error (.adm .hoaeq)
+    if b.equation then .error (.adm .hoaeq [.block c 0])
     else match b.order, b.degree with
-      | none, _ => .error (.adm .hoaorder)
-      | some _, none => .error (.adm .hoadegree)
+      | none, _ => .error (.adm .hoaorder [.block c 0])
+      | some _, none => .error (.adm .hoadegree [.block c 0])
       | some o, some g =>
-        if seen.contains (o, g) then .error (.adm .hoadup) else .ok ((o, g) :: seen)
+        if seen.contains (o, g) then .error (.adm .hoadup [.id .apf p]) else .ok ((o, g) :: seen)
 
 /-- `_validate_hoa_order_degree` -/
 def validateHoaOrderDegree (d : Doc) : R Unit :=
   forE (hoaPacks d) (fun p =>
-    match foldE (packChannels d p) [] (hoaOrderDegreeStep d) with
+    match foldE (packChannels d p) [] (hoaOrderDegreeStep d p) with
     | .ok _ => .ok ()
     | .error e => .error e)
 
-/-- `utils.get_path_param(path, name, default)` on the list of `getattr(obj, name)` values;
-the default (token 0) is applied by `withDefault`. -/
-def pathParam (vals : List (Option Nat)) : R (Option Nat) :=
+/-- `utils.get_path_param(path, name, default)` on the list of `getattr(obj, name)` values (`ids` = the `.id` reads of
+the objects of `path`, parallel to `vals`); the message reads `path[0].id` and `path[-1].id` (`IndexError` on an empty
+path).  The default is applied by `withDefault`. -/
+def pathParam (n : PName) (ids : List Acc) (vals : List (Option Nat)) : R (Option Nat) :=
   match vals.filterMap id with
   | [] => .ok none
-  | v :: vs => if vs.any (fun w => w != v) then .error (.adm .parampath) else .ok (some v)
+  | v :: vs =>
+    if vs.any (fun w => w != v) then
+      match ids.head?, ids.getLast? with
+      | some a, some b => .error (.adm (.parampath n) [.pname n, a, b])
+      | _, _ => .error (.internal .index)
+    else .ok (some v)
 
 /-- the `default` of `get_path_param`: token 0 (`"SN3D"` / `False`) -/
 def withDefault (r : R (Option Nat)) : R (Option Nat) :=
@@ -222,60 +428,97 @@ def withDefault (r : R (Option Nat)) : R (Option Nat) :=
   | .ok v => .ok (some (v.getD 0))
   | .error e => .error e
 
+/-- `return None if nfcRefDist == 0.0 else nfcRefDist` (token 0 = 0.0) -/
+def nfcZero (r : R (Option Nat)) : R (Option Nat) :=
+  match r with
+  | .ok (some 0) => .ok none
+  | .ok v => .ok v
+  | .error e => .error e
+
 /-- which HOA parameter a `get_single_param` call extracts -/
-inductive HoaParam | blockAttr | norm | scr
+inductive HoaParam | rtime | duration | norm | nfc | scr
   deriving DecidableEq, Repr
 
-/-- `hoa.get_rtime/get_duration/get_order/...` (`_get_block_format_attr`: `[block_format] = ...`, value
-not needed for the outcome; rtime/duration are `None` in modelled documents) and
-`hoa._get_pack_param` (`audioBlockFormats[0]`, then `get_path_param`). -/
+/-- the `.id` reads of `audioPackFormat_path + [audioChannelFormat.audioBlockFormats[0]]` -/
+def packParamIds (path : List Nat) (c : Nat) : List Acc := path.map (Acc.id .apf) ++ [.block c 0]
+
+/-- `hoa.get_rtime/get_duration` (`_get_block_format_attr`: `[block_format] = ...`) and
+`hoa.get_normalization/get_nfcRefDist/get_screenRef` (`_get_pack_param`: `audioBlockFormats[0]`, then `get_path_param`
+over the pack path plus the block). -/
 def hoaGet (d : Doc) (w : HoaParam) (path : List Nat) (c : Nat) : R (Option Nat) :=
   match w with
-  | .blockAttr => match unpack1 (d.chan c).blocks with
-    | .ok _ => .ok none
+  | .rtime => match unpack1 (d.chan c).blocks with
+    | .ok b => .ok b.rtime
+    | .error e => .error e
+  | .duration => match unpack1 (d.chan c).blocks with
+    | .ok b => .ok b.duration
     | .error e => .error e
   | .norm => match first (d.chan c).blocks with
-    | .ok b => withDefault (pathParam (path.map (fun p => (d.pack p).norm) ++ [b.norm]))
+    | .ok b => withDefault (pathParam .normalization (packParamIds path c) (path.map (fun p => (d.pack p).norm) ++ [b.norm]))
+    | .error e => .error e
+  | .nfc => match first (d.chan c).blocks with
+    | .ok b => nfcZero (pathParam .nfcRefDist (packParamIds path c) (path.map (fun p => (d.pack p).nfc) ++ [b.nfc]))
     | .error e => .error e
   | .scr => match first (d.chan c).blocks with
-    | .ok b => withDefault (pathParam (path.map (fun p => (d.pack p).scr) ++ [b.scr]))
+    | .ok b => withDefault (pathParam .screenRef (packParamIds path c) (path.map (fun p => (d.pack p).scr) ++ [b.scr]))
     | .error e => .error e
 
-/-- the `zip(l[:-1], l[1:])` loop of `utils.get_single_param` -/
-def singleParamPairs (get : List Nat → Nat → R (Option Nat)) : List (List Nat × Nat) → R Unit
+/-- the `zip(l[:-1], l[1:])` loop of `utils.get_single_param` (message: `name`, `acf_a.id`, `acf_b.id`) -/
+def singleParamPairs (n : PName) (get : List Nat → Nat → R (Option Nat)) : List (List Nat × Nat) → R Unit
   | a :: b :: rest =>
     match get a.1 a.2 with
     | .error e => .error e
     | .ok va => match get b.1 b.2 with
       | .error e => .error e
-      | .ok vb => if va != vb then .error (.adm .paramshare) else singleParamPairs get (b :: rest)
+      | .ok vb =>
+        if va != vb then .error (.adm (.paramshare n) [.pname n, .id .acf a.2, .id .acf b.2])
+        else singleParamPairs n get (b :: rest)
   | _ => .ok ()
 
 /-- `utils.get_single_param(pack_paths_channels, name, get_param)` -/
-def getSingleParam (get : List Nat → Nat → R (Option Nat)) (ppc : List (List Nat × Nat)) : R (Option Nat) :=
-  match singleParamPairs get ppc with
+def getSingleParam (n : PName) (get : List Nat → Nat → R (Option Nat)) (ppc : List (List Nat × Nat)) : R (Option Nat) :=
+  match singleParamPairs n get ppc with
   | .error e => .error e
   | .ok _ => match first ppc with
     | .error e => .error e
     | .ok a => get a.1 a.2
 
-/-- the five `get_single_param` calls of `_validate_hoa_parameters_consistent` (also made, with the
-per-channel getters in between, by `_get_RenderingItems_HOA`): rtime, duration, normalization,
-nfcRefDist (modelled like a block attribute: always `None`), screenRef. -/
-def hoaParams (d : Doc) (ppc : List (List Nat × Nat)) : R Unit :=
-  match getSingleParam (hoaGet d .blockAttr) ppc with
+/-- `get_single_param(..., "rtime", get_rtime)` and `(..., "duration", get_duration)` -/
+def hoaTimes (d : Doc) (ppc : List (List Nat × Nat)) : R Unit := do
+  let _ ← getSingleParam .rtime (hoaGet d .rtime) ppc
+  let _ ← getSingleParam .duration (hoaGet d .duration) ppc
+  pure ()
+
+/-- `get_single_param` for normalization, nfcRefDist, screenRef (in this order in both callers) -/
+def hoaNorms (d : Doc) (ppc : List (List Nat × Nat)) : R Unit := do
+  let _ ← getSingleParam .normalization (hoaGet d .norm) ppc
+  let _ ← getSingleParam .nfcRefDist (hoaGet d .nfc) ppc
+  let _ ← getSingleParam .screenRef (hoaGet d .scr) ppc
+  pure ()
+
+/-- the five `get_single_param` calls of `_validate_hoa_parameters_consistent` -/
+def hoaParams (d : Doc) (ppc : List (List Nat × Nat)) : R Unit := do
+  hoaTimes d ppc
+  hoaNorms d ppc
+
+/-- `get_per_channel_param(pack_paths_channels, get_order / get_degree / get_gain / get_importance)`: four times the
+same `[block_format] = audioChannelFormat.audioBlockFormats` per channel -/
+def hoaPerChannel (d : Doc) (ppc : List (List Nat × Nat)) : R Unit :=
+  match mapE ppc (fun x => unpack1 (d.chan x.2).blocks) with
+  | .ok _ => .ok ()
   | .error e => .error e
-  | .ok _ => match getSingleParam (hoaGet d .norm) ppc with
-    | .error e => .error e
-    | .ok _ => match getSingleParam (hoaGet d .scr) ppc with
-      | .error e => .error e
-      | .ok _ => .ok ()
+
+/-- the arguments of `HOATypeMetadata(...)` in `_get_RenderingItems_HOA`, in evaluation order, up to `extra_data` -/
+def hoaItemParams (d : Doc) (ppc : List (List Nat × Nat)) : R Unit := do
+  hoaTimes d ppc
+  hoaPerChannel d ppc
+  hoaNorms d ppc
 
 /-- `_validate_hoa_parameters_consistent` (since commit 03146b0 a HOA pack that reaches no channel is an
 `AdmError`, raised before the first `get_single_param`) -/
 def validateHoaParams (d : Doc) : R Unit :=
   forE (hoaPacks d) (fun p =>
-    if (packPathsChannels d p).isEmpty then .error (.adm .hoaempty)
+    if (packPathsChannels d p).isEmpty then .error (.adm .hoaempty [])
     else hoaParams d (packPathsChannels d p))
 
 /-- `matrix.Type` -/
@@ -300,22 +543,27 @@ def inputPackOf (p : Pack) : R Nat :=
     | some i => .ok i
     | none => .error (.internal .attrNone)
 
-/-- `_validate_matrix_channel` (rtime/duration are unset in modelled documents) -/
-def validateMatrixChannel (c : Channel) : R Unit :=
-  if c.blocks.length != 1 then .error (.adm .mxchblocks)
+/-- `_validate_matrix_channel` for channel `ci` (messages: `acf.id` / `block_format.id`, `name`) -/
+def validateMatrixChannel (ci : Nat) (c : Channel) : R Unit :=
+  if c.blocks.length != 1 then .error (.adm .mxchblocks [.id .acf ci])
   else match unpack1 c.blocks with
     | .error e => .error e
-    | .ok b => forE b.coeffs (fun co => if co.badParam then .error (.adm .mxchparam) else .ok ())
+    | .ok b =>
+      if b.rtime.isSome || b.duration.isSome then .error (.adm .mxchtime [.block ci 0])
+      else forE b.coeffs (fun co =>
+        if co.badVar then .error (.adm .mxchvar [.block ci 0])
+        else if co.negDelay then .error (.adm .mxchdelay [.block ci 0])
+        else .ok ())
 
-/-- body of the `for apf_encode in apf.encodePackFormats` loop of `_validate_matrix_apf_references`
+/-- body of the `for apf_encode in apf.encodePackFormats` loop of `_validate_matrix_apf_references` for pack `pi`
 (with the guard added in commit 592dfc9 before `matrix.type_of(apf_encode)`) -/
-def validateEncodeRef (d : Doc) (e : Nat) : R Unit :=
+def validateEncodeRef (d : Doc) (pi e : Nat) : R Unit :=
   let q := d.pack e
-  if q.type != .matrix then .error (.adm .mxencnonmatrix)
-  else if q.input.isNone && q.output.isNone then .error (.adm .mxnoio)
+  if q.type != .matrix then .error (.adm .mxencnonmatrix [.id .apf pi, .id .apf e])
+  else if q.input.isNone && q.output.isNone then .error (.adm .mxencnoio [.id .apf e])
   else match typeOf q with
     | .error err => .error err
-    | .ok t => if t != .encode then .error (.adm .mxencnonenc) else .ok ()
+    | .ok t => if t != .encode then .error (.adm .mxencnonenc [.id .apf pi, .id .apf e]) else .ok ()
 
 /-- `ref is not None and ref.type == TypeDefinition.Matrix` -/
 def isMatrixRef (d : Doc) (o : Option Nat) : Bool :=
@@ -323,44 +571,48 @@ def isMatrixRef (d : Doc) (o : Option Nat) : Bool :=
   | some i => (d.pack i).type == TypeDef.matrix
   | none => false
 
-/-- `_validate_matrix_apf_references` -/
-def validateMatrixApfRefs (d : Doc) (p : Pack) : R Unit :=
-  if p.input.isNone && p.output.isNone then .error (.adm .mxnoio)
+/-- `_validate_matrix_apf_references` for pack `pi` = `p` -/
+def validateMatrixApfRefs (d : Doc) (pi : Nat) (p : Pack) : R Unit :=
+  if p.input.isNone && p.output.isNone then .error (.adm .mxnoio [.id .apf pi])
   else match typeOf p with
     | .error e => .error e
     | .ok t =>
-      if isMatrixRef d p.input then .error (.adm .mxinmatrix)
-      else if isMatrixRef d p.output then .error (.adm .mxoutmatrix)
-      else if t != MType.decode && !p.encodePacks.isEmpty then .error (.adm .mxencnotdec)
-      else if t == MType.decode && p.encodePacks.length != 1 then .error (.adm .mxdecone)
-      else match forE p.encodePacks (validateEncodeRef d) with
+      if isMatrixRef d p.input then .error (.adm .mxinmatrix [.id .apf pi])
+      else if isMatrixRef d p.output then .error (.adm .mxoutmatrix [.id .apf pi])
+      else if t != MType.decode && !p.encodePacks.isEmpty then .error (.adm .mxencnotdec [.id .apf pi])
+      else if t == MType.decode && p.encodePacks.length != 1 then
+        .error (.adm .mxdecone [.id .apf pi, .num p.encodePacks.length])
+      else match forE p.encodePacks (validateEncodeRef d pi) with
         | .error e => .error e
-        | .ok _ => if !p.packs.isEmpty then .error (.adm .mxsubpack) else .ok ()
+        | .ok _ => if !p.packs.isEmpty then .error (.adm .mxsubpack [.id .apf pi]) else .ok ()
 
-/-- the coefficient loop of `_validate_matrix_inputChannelFormat_references` for one matrix channel -/
-def validateInputRefsChannel (d : Doc) (inputChannels : List Nat) (mc : Nat) : R Unit :=
+/-- the coefficient loop of `_validate_matrix_inputChannelFormat_references` for one matrix channel; the message
+reads `matrix_channel.id`, `input_channel.id` (AttributeError when the reference is `None`) and `input_pack.id` -/
+def validateInputRefsChannel (d : Doc) (ip : Nat) (inputChannels : List Nat) (mc : Nat) : R Unit :=
   match unpack1 (d.chan mc).blocks with
   | .error e => .error e
   | .ok b => forE b.coeffs (fun co =>
       match co.input with
       | none => .error (.internal .attrNone)          -- `input_channel.id` in the message (None is never in the list)
-      | some c => if inputChannels.contains c then .ok () else .error (.adm .mxinputch))
+      | some c =>
+        if inputChannels.contains c then .ok ()
+        else .error (.adm .mxinputch [.id .acf mc, .id .acf c, .id .apf ip]))
 
 /-- `_validate_matrix_inputChannelFormat_references` -/
 def validateMatrixInputRefs (d : Doc) (pi : Nat) : R Unit :=
   match inputPackOf (d.pack pi) with
   | .error e => .error e
-  | .ok ip => forE (packChannels d pi) (validateInputRefsChannel d (packChannels d ip))
+  | .ok ip => forE (packChannels d pi) (validateInputRefsChannel d ip (packChannels d ip))
 
 /-- body of the first loop of `_validate_matrix_outputChannelFormat_references`; state = `output_channels` -/
-def outputRefsStep (d : Doc) (outPackChannels : List Nat) (outs : List Nat) (mc : Nat) : R (List Nat) :=
+def outputRefsStep (d : Doc) (pi : Nat) (outPackChannels : List Nat) (outs : List Nat) (mc : Nat) : R (List Nat) :=
   match unpack1 (d.chan mc).blocks with
   | .error e => .error e
   | .ok b => match b.outCh with
-    | none => .error (.adm .mxoutmissing)
+    | none => .error (.adm .mxoutmissing [.block mc 0])
     | some oc =>
-      if outs.contains oc then .error (.adm .mxoutdup)
-      else if !outPackChannels.contains oc then .error (.adm .mxoutnotin)
+      if outs.contains oc then .error (.adm .mxoutdup [.id .acf oc, .id .apf pi])
+      else if !outPackChannels.contains oc then .error (.adm .mxoutnotin [.id .acf mc, .id .acf oc, .id .apf pi])
       else .ok (outs ++ [oc])
 
 /-- `_validate_matrix_outputChannelFormat_references` -/
@@ -368,46 +620,46 @@ def validateMatrixOutputRefs (d : Doc) (pi : Nat) : R Unit :=
   match (d.pack pi).output with
   | none => .error (.internal .attrNone)               -- `pack_format_channels(None)`
   | some o =>
-    match foldE (packChannels d pi) [] (outputRefsStep d (packChannels d o)) with
+    match foldE (packChannels d pi) [] (outputRefsStep d pi (packChannels d o)) with
     | .error e => .error e
     | .ok outs => forE (packChannels d o) (fun c =>
-        if outs.contains c then .ok () else .error (.adm .mxoutuncovered))
+        if outs.contains c then .ok () else .error (.adm .mxoutuncovered [.id .apf pi, .id .acf c]))
 
 /-- `_validate_non_matrix_pack` -/
-def validateNonMatrixPack (p : Pack) : R Unit :=
-  if p.input.isSome then .error (.adm .nmxinput)
-  else if p.output.isSome then .error (.adm .nmxoutput)
-  else if !p.encodePacks.isEmpty then .error (.adm .nmxencode)
+def validateNonMatrixPack (pi : Nat) (p : Pack) : R Unit :=
+  if p.input.isSome then .error (.adm .nmxinput [.id .apf pi])
+  else if p.output.isSome then .error (.adm .nmxoutput [.id .apf pi])
+  else if !p.encodePacks.isEmpty then .error (.adm .nmxencode [.id .apf pi])
   else .ok ()
 
 /-- body of the pack loop of `_validate_matrix_types` -/
 def validateMatrixPack (d : Doc) (pi : Nat) : R Unit :=
   let p := d.pack pi
   if p.type == .matrix then
-    match validateMatrixApfRefs d p with
+    match validateMatrixApfRefs d pi p with
     | .error e => .error e
     | .ok _ => match validateMatrixInputRefs d pi with
       | .error e => .error e
       | .ok _ => match typeOf p with
         | .error e => .error e
         | .ok t => if t == .decode || t == .direct then validateMatrixOutputRefs d pi else .ok ()
-  else validateNonMatrixPack p
+  else validateNonMatrixPack pi p
 
 /-- `_validate_matrix_types` -/
 def validateMatrixTypes (d : Doc) : R Unit :=
-  match forE d.channels (fun c => if c.type == .matrix then validateMatrixChannel c else .ok ()) with
+  match forEI d.channels 0 (fun ci c => if c.type == .matrix then validateMatrixChannel ci c else .ok ()) with
   | .error e => .error e
   | .ok _ => forE (List.range d.packs.length) (validateMatrixPack d)
 
-/-- `_validate_track_channel_ref_only_in_v2` -/
+/-- `_validate_track_channel_ref_only_in_v2` (constant message) -/
 def validateV2Refs (d : Doc) : R Unit :=
-  if !d.v2Allowed && d.trackUIDs.any (fun t => t.channel.isSome) then .error (.adm .v2ref) else .ok ()
+  if !d.v2Allowed && d.trackUIDs.any (fun t => t.channel.isSome) then .error (.adm .v2ref []) else .ok ()
 
 /-- `_validate_track_uid_track_or_channel_ref` -/
 def validateTrackOrChannel (d : Doc) : R Unit :=
-  forE d.trackUIDs (fun t =>
-    if t.trackFormat.isNone && t.channel.isNone then .error (.adm .tracknone)
-    else if t.trackFormat.isSome && t.channel.isSome then .error (.adm .trackboth)
+  forEI d.trackUIDs 0 (fun i t =>
+    if t.trackFormat.isNone && t.channel.isNone then .error (.adm .tracknone [.id .atu i])
+    else if t.trackFormat.isSome && t.channel.isSome then .error (.adm .trackboth [.id .atu i])
     else .ok ())
 
 /-! ### `_validate_avs_references` -/
@@ -416,9 +668,10 @@ def validateTrackOrChannel (d : Doc) : R Unit :=
 def findObjectForAvs (d : Doc) (a : Nat) (objs : List Nat) : Option Nat :=
   objs.find? (fun o => (d.obj o).avs.contains a)
 
-/-- `_validate_avs_references_contained` -/
-def validateAvsContained (d : Doc) (refs : List Nat) (objs : List Nat) : R Unit :=
-  forE refs (fun a => if (findObjectForAvs d a objs).isNone then .error (.adm .avsnotin) else .ok ())
+/-- `_validate_avs_references_contained` (`who` = `referring_object.id`) -/
+def validateAvsContained (d : Doc) (who : Acc) (refs : List Nat) (objs : List Nat) : R Unit :=
+  forE refs (fun a =>
+    if (findObjectForAvs d a objs).isNone then .error (.adm .avsnotin [who, .avs a]) else .ok ())
 
 /-- `[object_path[-1] for root_object in roots for object_path in object_paths_from(root_object)]` -/
 def objsBelow (d : Doc) (roots : List Nat) : List Nat :=
@@ -435,30 +688,36 @@ referring object is `none` for the programme and `some c` for content `c` -/
 def avsPairs (d : Doc) (P : Programme) : List (Option Nat × Nat) :=
   P.avs.map (fun a => (none, a)) ++ P.contents.flatMap (fun c => (d.content c).avs.map (fun a => (some c, a)))
 
+/-- `.id` of a referring object of programme `pi` -/
+def whoAcc (pi : Nat) : Option Nat → Acc
+  | none => .id .ap pi
+  | some c => .id .ac c
+
 /-- loop body of `_validate_avs_references_conflict`; `seen` = `references_by_object_id` as an association list -/
-def avsConflictStep (d : Doc) (objs : List Nat) (seen : List (Nat × Option Nat × Nat)) (x : Option Nat × Nat) :
+def avsConflictStep (d : Doc) (pi : Nat) (objs : List Nat) (seen : List (Nat × Option Nat × Nat)) (x : Option Nat × Nat) :
     R (List (Nat × Option Nat × Nat)) :=
   match findObjectForAvs d x.2 objs with
   | none => .error (.internal .assert)               -- `assert obj is not None  # already checked`
   | some o => match seen.find? (fun e => e.1 == o) with
     | some e =>
-      if e.2.2 == x.2 && e.2.1 == x.1 then .error (.adm .avsdup)
-      else if e.2.2 == x.2 then .error (.adm .avsboth)
-      else .error (.adm .avsmulti)
+      if e.2.2 == x.2 && e.2.1 == x.1 then .error (.adm .avsdup [.avs x.2, whoAcc pi x.1])
+      else if e.2.2 == x.2 then .error (.adm .avsboth [.avs x.2, whoAcc pi e.2.1, whoAcc pi x.1])
+      else .error (.adm .avsmulti [.id .ao o, .avs e.2.2, whoAcc pi e.2.1, .avs x.2, whoAcc pi x.1])
     | none => .ok ((o, x.1, x.2) :: seen)
 
-/-- body of the programme loop of `_validate_avs_references` -/
-def validateAvsProgramme (d : Doc) (P : Programme) : R Unit :=
-  match validateAvsContained d P.avs (programmeObjects d P) with
+/-- body of the programme loop of `_validate_avs_references` for programme `pi` = `P` -/
+def validateAvsProgramme (d : Doc) (pi : Nat) (P : Programme) : R Unit :=
+  match validateAvsContained d (.id .ap pi) P.avs (programmeObjects d P) with
   | .error e => .error e
-  | .ok _ => match forE P.contents (fun c => validateAvsContained d (d.content c).avs (contentObjects d c)) with
+  | .ok _ =>
+    match forE P.contents (fun c => validateAvsContained d (.id .ac c) (d.content c).avs (contentObjects d c)) with
     | .error e => .error e
-    | .ok _ => match foldE (avsPairs d P) [] (avsConflictStep d (programmeObjects d P)) with
+    | .ok _ => match foldE (avsPairs d P) [] (avsConflictStep d pi (programmeObjects d P)) with
       | .error e => .error e
       | .ok _ => .ok ()
 
 /-- `_validate_avs_references` -/
-def validateAvsReferences (d : Doc) : R Unit := forE d.programmes (validateAvsProgramme d)
+def validateAvsReferences (d : Doc) : R Unit := forEI d.programmes 0 (validateAvsProgramme d)
 
 /-- `validate_structure` -/
 def validateStructure (d : Doc) : R Unit := do
@@ -482,13 +741,13 @@ def validateStructure (d : Doc) : R Unit := do
 /-- `validate_selected_audioTrackUID` -/
 def validateSelectedTrack (d : Doc) (t : Nat) : R Unit :=
   let u := d.atu t
-  if u.trackIndex.isNone then .error (.adm .noindex)
-  else if u.pack.isNone then .error (.adm .nopack)
+  if u.trackIndex.isNone then .error (.adm .noindex [.id .atu t])
+  else if u.pack.isNone then .error (.adm .nopack [.id .atu t])
   else match u.trackFormat with
     | none => .ok ()
     | some f => match (d.tf f).stream with
       | none => .error (.internal .attrNone)           -- `audioTrackFormat.audioStreamFormat` is None
-      | some s => if (d.stream s).channel.isNone then .error (.adm .streamnochannel) else .ok ()
+      | some s => if (d.stream s).channel.isNone then .error (.adm .streamnochannel [.id .asf s]) else .ok ()
 
 /-- `_PackAllocator.channel_format_for_track_uid`; the result may still be `None` (stream without
 channel) when called on an unvalidated track -/
@@ -508,18 +767,15 @@ def trackSpec (d : Doc) (t : Nat) : R Nat :=
   | some i => .ok (i - 1)
   | none => .error (.internal .typeError)
 
-/-- one diagnostic message of `possible_reference_errors` (family only) -/
-inductive Diag | manyPacks | tracksNoPacks | packsNoTracks | trackPackNotInObject | packLacksChannel
-  deriving DecidableEq, Repr
-
 /-- the `any(pack_channel is track_channel for possible_pack in possible_packs for pack_channel in ...)` of
 `possible_audioTrackUID_errors` -/
 def diagFound (d : Doc) (p : Nat) (tc : Option Nat) : Bool :=
   ([p] ++ (d.pack p).encodePacks ++ (if (d.pack p).input.isSome then [p] else [])).any
     (fun q => (packChannels d q).any (fun c => some c == tc))
 
-/-- `possible_audioTrackUID_errors` (after commit 0d9f6b4: both referencing styles) -/
-def possibleTrackErrors (d : Doc) (t : Nat) : R (List Diag) :=
+/-- `possible_audioTrackUID_errors` (after commit 0d9f6b4: both referencing styles); the one reason formats `apf.id`,
+`acf.id` (AttributeError when the track's channel is `None`) and `atu.id` -/
+def possibleTrackErrors (d : Doc) (t : Nat) : R Msg :=
   let u := d.atu t
   match u.pack with
   | none => .error (.internal .attrNone)               -- `audioPackFormat.encodePackFormats`
@@ -536,29 +792,29 @@ def possibleTrackErrors (d : Doc) (t : Nat) : R (List Diag) :=
       if diagFound d p tc then .ok []
       else match tc with
         | none => .error (.internal .attrNone)          -- `acf.id` in the message
-        | some _ => .ok [.packLacksChannel]
+        | some c => .ok [.reason .packLacksChannel, .id .apf p, .id .acf c, .id .atu t]
 
-/-- `possible_audioTrackUID_pack_errors` -/
-def possibleTrackPackErrors (d : Doc) (packs : List Nat) (tracks : List Nat) : R (List Diag) :=
+/-- `possible_audioTrackUID_pack_errors`; the reason formats `track.audioPackFormat.id` and `track.id` -/
+def possibleTrackPackErrors (d : Doc) (packs : List Nat) (tracks : List Nat) : R Msg :=
   let possible := packs.flatMap (fun p => packPacks d p ++ (d.pack p).encodePacks.flatMap (packPacks d))
   match mapE tracks (fun t =>
       match (d.atu t).pack with
       | none => .error (.internal .attrNone)            -- `apf.id` in the message (None is never in the list)
-      | some p => if possible.contains p then .ok [] else .ok [Diag.trackPackNotInObject]) with
+      | some p => if possible.contains p then .ok [] else .ok [Acc.reason .trackPackNotInObject, .id .apf p, .id .atu t]) with
   | .ok ls => .ok ls.flatten
   | .error e => .error e
 
 /-- `possible_reference_errors` -/
 def possibleReferenceErrors (d : Doc) (packs : Option (List Nat)) (tracks : List Nat) (nSilent : Nat) :
-    R (List Diag) :=
-  let head : R (List Diag) :=
+    R Msg :=
+  let head : R Msg :=
     match packs with
     | none => .ok []
     | some ps =>
-      let a := if ps.length > 1 then [Diag.manyPacks] else []
+      let a := if ps.length > 1 then [Acc.reason .manyPacks] else []
       let hasTracks := !tracks.isEmpty || nSilent != 0
-      let b := if hasTracks && ps.isEmpty then [Diag.tracksNoPacks] else []
-      let c := if !hasTracks && !ps.isEmpty then [Diag.packsNoTracks] else []
+      let b := if hasTracks && ps.isEmpty then [Acc.reason .tracksNoPacks] else []
+      let c := if !hasTracks && !ps.isEmpty then [Acc.reason .packsNoTracks] else []
       match possibleTrackPackErrors d ps tracks with
       | .ok l => .ok (a ++ b ++ c ++ l)
       | .error e => .error e
@@ -568,10 +824,11 @@ def possibleReferenceErrors (d : Doc) (packs : Option (List Nat)) (tracks : List
     | .ok ls => .ok (h ++ ls.flatten)
     | .error e => .error e
 
-/-- `_PackAllocator.raise_error`: builds the diagnostics, then raises `AdmFormatRefError` -/
-def raiseError (d : Doc) (packs : Option (List Nat)) (tracks : List Nat) (nSilent : Nat) (k : AdmKind) : R Nat :=
+/-- `_PackAllocator.raise_error`: the context (`state.audioObject.id` behind its `is not None` test, or "CHNA"), the
+diagnostics, then `raise AdmFormatRefError(message, possible_errors)` -/
+def raiseError (d : Doc) (ctx : Acc) (packs : Option (List Nat)) (tracks : List Nat) (nSilent : Nat) (k : AdmKind) : R Nat :=
   match possibleReferenceErrors d packs tracks nSilent with
-  | .ok _ => .error (.adm k)
+  | .ok reasons => .error (.adm k (ctx :: reasons))
   | .error e => .error e
 
 /-- `_select_complementary_objects`: the loop over `root_objects` producing `not_selected` -/
@@ -581,7 +838,7 @@ def compLoop (d : Doc) (allSelected : List Nat) : List Nat → R (List Nat)
     let group := r :: (d.obj r).comps
     let selected := group.filter (fun o => allSelected.contains o)
     if selected.isEmpty then .error (.internal .assert)
-    else if selected.length > 1 then .error (.adm .compmulti)
+    else if selected.length > 1 then .error (.adm .compmulti (.id .ao r :: selected.map (Acc.id .ao)))
     else match compLoop d allSelected rs with
       | .ok rest => .ok (group.filter (fun o => !allSelected.contains o) ++ rest)
       | .error e => .error e
@@ -591,7 +848,7 @@ def selectComplementary (d : Doc) (sel : List Nat) : R (List Nat) :=
   let roots := (List.range d.objects.length).filter (fun r => !(d.obj r).comps.isEmpty)
   let group := fun r => r :: (d.obj r).comps
   let allComp := roots.flatMap group
-  match forE sel (fun s => if allComp.contains s then .ok () else .error (.adm .compnotgroup)) with
+  match forE sel (fun s => if allComp.contains s then .ok () else .error (.adm .compnotgroup [.id .ao s])) with
   | .error e => .error e
   | .ok _ =>
     let allSelected := sel ++ roots.filter (fun r => !(group r).any (fun o => sel.contains o))
@@ -646,6 +903,12 @@ def selectedOf (d : Doc) (st : State) : Option (List Nat) × List Nat × Nat :=
     (some o.packs, real, o.tracks.length - real.length)
   | none => (none, List.range d.trackUIDs.length, 0)
 
+/-- the context of `raise_error`: `"audioObject {audioObject.id}"` if `state.audioObject is not None` else `"CHNA"` -/
+def ctxOf (st : State) : Acc :=
+  match st.objects with
+  | some path => .id .ao (path.getLastD 0)
+  | none => .chna
+
 /-- `_get_pack_format_path`: `[found_path] = [path for path in pack_format_paths_from(pack) if channel in path[-1].audioChannelFormats]` -/
 def packFormatPath (d : Doc) (p : Nat) (c : Nat) : R (List Nat) :=
   unpack1 ((packPaths d p).filter (fun path => (d.pack (path.getLastD p)).channels.contains c))
@@ -680,35 +943,57 @@ def avsSelected (d : Doc) (st : State) : R Unit :=
       ((match st.prog with | some p => (d.programme p).avs | none => []) ++
        (match st.content with | some c => (d.content c).avs | none => [])) none
 
+/-- `get_absoluteDistance` of `_get_extra_data`: `get_path_param(audioPackFormat_path, "absoluteDistance")` -/
+def absDistGet (d : Doc) (path : List Nat) (_c : Nat) : R (Option Nat) :=
+  pathParam .absoluteDistance (path.map (Acc.id .apf)) (path.map (fun p => (d.pack p).absDist))
+
+/-- `_get_extra_data(state, pack_paths_channels)`: `get_single_param(..., "absoluteDistance", ...)`, then
+`_get_alternativeValueSet(state)` (= `extra`); everything else in it is attribute copying -/
+def extraData (d : Doc) (extra : R Unit) (ppc : List (List Nat × Nat)) : R Unit :=
+  match getSingleParam .absoluteDistance (absDistGet d) ppc with
+  | .error e => .error e
+  | .ok _ => extra
+
+/-- `_get_importance(state)`: `min(...)` over `state.audioObjects` (if not `None`) and over
+`state.audioPackFormat_path` (`ValueError` for an empty sequence) -/
+def importanceOf (objPath : Option (List Nat)) (packPath : List Nat) : R Unit :=
+  match (match objPath with
+         | some p => minNonempty p
+         | none => .ok ()) with
+  | .error e => .error e
+  | .ok _ => minNonempty packPath
+
 /-- per-channel step of `_get_RenderingItems_Objects/DirectSpeakers`: `_select_single_channel`
-(`_get_pack_format_path`), then `_get_extra_data` (whose only raising part is `extra`) -/
-def singleChannel (d : Doc) (extra : R Unit) (o : Nat) (oc : Option Nat) : R (List Nat × Nat) :=
+(`_get_pack_format_path`), `_get_extra_data(state)`, `_get_importance(state)` -/
+def singleChannel (d : Doc) (extra : R Unit) (op : Option (List Nat)) (o : Nat) (oc : Option Nat) : R (List Nat × Nat) :=
   match packFormatPathOpt d o oc with
   | .error e => .error e
-  | .ok x => match extra with
+  | .ok x => match extraData d extra [x] with
     | .error e => .error e
-    | .ok _ => .ok x
+    | .ok _ => match importanceOf op x.1 with
+      | .error e => .error e
+      | .ok _ => .ok x
 
-/-- `_get_rendering_items(state)` for `state.audioPackFormat = o` and the channels of
-`state.channel_allocation`: number of rendering items produced; `extra` = `_get_alternativeValueSet(state)` -/
-def itemsFor (d : Doc) (extra : R Unit) (o : Nat) (chans : List (Option Nat)) : R Nat :=
+/-- `_get_rendering_items(state)` for `state.audioPackFormat = o`, the channels of `state.channel_allocation` and
+`state.audioObjects = op`: number of rendering items produced; `extra` = `_get_alternativeValueSet(state)` -/
+def itemsFor (d : Doc) (extra : R Unit) (op : Option (List Nat)) (o : Nat) (chans : List (Option Nat)) : R Nat :=
   match (d.pack o).type with
   | .objects | .directSpeakers =>
-    match mapE chans (singleChannel d extra o) with
+    match mapE chans (singleChannel d extra op o) with
     | .ok _ => .ok chans.length
     | .error e => .error e
   | .hoa =>
     match mapE chans (packFormatPathOpt d o) with
     | .error e => .error e
     | .ok ppc =>
-      match hoaParams d ppc with
+      match hoaItemParams d ppc with
       | .error e => .error e
-      | .ok _ => match first ppc with          -- `_get_extra_data`: get_single_param(absoluteDistance)
-        | .ok _ => (match extra with
-          | .ok _ => .ok 1
-          | .error e => .error e)
+      | .ok _ => match extraData d extra ppc with
         | .error e => .error e
-  | _ => .error (.adm .unsupportedtype)      -- `AdmError` since commit 76cae51 (was NotImplementedError)
+        | .ok _ => match forE ppc (fun x => importanceOf op x.1) with
+          | .error e => .error e
+          | .ok _ => .ok 1
+  | _ => .error (.adm .unsupportedtype [.tname .apf o])      -- `AdmError` since commit 76cae51 (was NotImplementedError)
 
 /-- one `OutputAllocationPack` of `_PackAllocator.packs`: root pack, Regular or Matrix allocation pack, and the
 channel formats of its `AllocationChannel`s -/
@@ -793,14 +1078,14 @@ def matrixChannelAllocation (d : Doc) (pat : Pattern) (mc : Nat) : R (Option Nat
 
 /-- one allocated pack of the unique solution: `output_pack`, `output_channel_allocation(...)`, then
 `_get_rendering_items` -/
-def renderingItems (d : Doc) (extra : R Unit) (pat : Pattern) : R Nat :=
+def renderingItems (d : Doc) (extra : R Unit) (op : Option (List Nat)) (pat : Pattern) : R Nat :=
   if pat.isMatrix then
     match mapE (d.pack pat.root).channels (matrixChannelAllocation d pat) with
     | .error e => .error e
     | .ok outs => match (d.pack pat.root).output with
       | none => .error (.internal .attrNone)            -- `state.audioPackFormat.type`
-      | some o => itemsFor d extra o outs
-  else itemsFor d extra pat.root (pat.channels.map some)
+      | some o => itemsFor d extra op o outs
+  else itemsFor d extra op pat.root (pat.channels.map some)
 
 /-- the `allocate_packs` arguments of `select_pack_mapping`: `self.packs` (identity of an allocation pack = its
 position in `self.packs`), one `AllocationTrackUID` per selected track (identity = position; `channel_format` and
@@ -822,12 +1107,12 @@ def processState (d : Doc) (pats : List Pattern) (st : State) : R Nat :=
   | .ok _ => match mapE tracks (channelForTrack d) with
     | .error e => .error e
     | .ok cfs => match PackAlloc.selectPackMapping (allocProblem d pats packs tracks cfs nSilent) with
-      | .conflicting => raiseError d packs tracks nSilent .conflicting
-      | .ambiguous => raiseError d packs tracks nSilent .ambiguous
+      | .conflicting => raiseError d (ctxOf st) packs tracks nSilent .conflicting
+      | .ambiguous => raiseError d (ctxOf st) packs tracks nSilent .ambiguous
       | .accepted sol =>
         match mapE tracks (trackSpec d) with
         | .error e => .error e
-        | .ok _ => sumE sol 0 (fun _ a => renderingItems d (avsSelected d st) (pats.getD a.pack.id default))
+        | .ok _ => sumE sol 0 (fun _ a => renderingItems d (avsSelected d st) st.objects (pats.getD a.pack.id default))
 
 /-- `select_rendering_items(adm, audio_programme, selected_complementary_objects)`: number of items -/
 def selectItems (d : Doc) (prog : Option Nat) (sel : List Nat) : R Nat :=
@@ -847,5 +1132,14 @@ def uniquePaths (d : Doc) : Bool :=
   (List.range d.packs.length).all (fun p =>
     (packChannels d p).all (fun c =>
       ((packPaths d p).filter (fun path => (d.pack (path.getLastD p)).channels.contains c)).length == 1))
+
+/-- what the caller of `select_rendering_items` observes: items, an `AdmError` of some kind, or something else -/
+inductive Outcome | items (n : Nat) | adm (k : AdmKind) | internal (k : IntKind)
+  deriving DecidableEq, Repr
+
+def outcome : R Nat → Outcome
+  | .ok n => .items n
+  | .error (.adm k _) => .adm k
+  | .error (.internal k) => .internal k
 
 end Earverif.Validate
